@@ -42,6 +42,13 @@ Qed.
 Lemma dup_templates_copy : dup_templates_ok dup_templates = true.
 Proof. vm_compute. reflexivity. Qed.
 
+(* an attribute of the context that some template / function changes in place is only ever
+   pushed as a materialised copy (today: ctx.global_array, changed by ⅛ and ¼, pushed by ¾) *)
+Lemma ctx_pushes_materialised :
+  ctx_pushes_ok ctx_inplace_attrs ctx_pushes = true /\
+  existsb (fun p => mem_str (cp_attr p) ctx_inplace_attrs) ctx_pushes = true.
+Proof. split; vm_compute; reflexivity. Qed.
+
 Lemma pure_table :
   (forall t, In t mut_elements -> mem_str (mt_key t) c10_suspect_elements = false -> templ_clean t) /\
   (forall t, In t mut_modifiers -> mem_str (mt_key t) c10_suspect_modifiers = false -> templ_clean t).
